@@ -10,6 +10,7 @@ struct Obj { char payload; };
 static const int NLINK = 4;
 struct World {
   atomics::atomic<Obj*> link[NLINK];
+  static const int NPOOL = 600; atomics::atomic<Obj*> pool[NPOOL]; atomics::atomic<int> signals;   // holdn / retpool / signal / await
   std::vector<char*> slabs; int next_id = 1; bool odd = false;
   Obj* make() { char* m = (char*)malloc(16); slabs.push_back(m); Obj* o = (Obj*)(m + (odd ? 9 : 8)); o->payload = 1; vs::mem_register(o, 1, next_id++); return o; }
   ~World() { for (auto p : slabs) free(p); }
@@ -20,10 +21,11 @@ static void disposer_fn(void* p) { Obj* o = (Obj*)p; if (vs::mem_state(o) == 2) 
 struct ObjDisposer { void operator()(Obj* p) const { disposer_fn(p); } };
 static void user_sink(const char* name, const void*) { if (strstr(name, "scan")) xev("pass"); }
 
-template <class GC> struct ThreadState { std::vector<typename GC::Guard*> g; std::vector<Obj*> held; bool attached = true;
+template <class GC> struct ThreadState { std::vector<typename GC::Guard*> g; std::vector<Obj*> held; bool attached = true; std::vector<typename GC::Guard*> extra;
   ThreadState(int n) : g(n, nullptr), held(n, nullptr) {}
   // the guard-release window is bracketed by pbeg/pend: the hazard slot still holds the pointer until the release completes
-  void drop_all() { xev("pbeg"); for (size_t i = 0; i < g.size(); ++i) if (g[i]) { if (held[i]) xev("gclr", (long)i); held[i] = nullptr; delete g[i]; g[i] = nullptr; } xev("pend"); } };
+  void drop_all() { xev("pbeg"); for (size_t i = 0; i < g.size(); ++i) if (g[i]) { if (held[i]) xev("gclr", (long)i); held[i] = nullptr; delete g[i]; g[i] = nullptr; }
+    for (size_t i = 0; i < extra.size(); ++i) { xev("gclr", (long)(1000 + i)); delete extra[i]; } extra.clear(); xev("pend"); } };
 
 template <class GC> static void run_smr_program(const Program& P, int nslots, bool func_retire) {
   auto retire_obj = [&](Obj* o) { if (!o) return; xev("retire", id_of(o)); xev("pass"); if (func_retire) GC::template retire<Obj>(o, disposer_fn); else GC::template retire<ObjDisposer>(o); };
@@ -43,6 +45,12 @@ template <class GC> static void run_smr_program(const Program& P, int nslots, bo
       else if (o.name == "detach") { if (ts.attached) { ts.drop_all(); xev("pass"); detach(); xev("detach"); ts.attached = false; } }
       else if (o.name == "attach") { if (!ts.attached) { attach(); ts.attached = true; } }
       else if (o.name == "yield") { sched_yield(); }
+      // holdn:n  -- create n objects in the pool links, each protected by a guard of its own (DHP: any number of guards)
+      else if (o.name == "holdn") { if (!ts.attached) continue; for (long i = 0; i < o.arg(0) && i < World::NPOOL; ++i) { W->pool[i].store(W->make()); typename GC::Guard* g = new typename GC::Guard;
+          xev("pbeg"); Obj* p = g->protect(W->pool[i]); xev("pend"); xev("gset", (long)(1000 + ts.extra.size()), id_of(p)); ts.extra.push_back(g); } }
+      else if (o.name == "retpool") { if (!ts.attached) continue; for (int i = 0; i < World::NPOOL; ++i) { Obj* old = W->pool[i].exchange(nullptr); retire_obj(old); } }
+      else if (o.name == "signal") { W->signals.fetch_add(1); }
+      else if (o.name == "await") { while (W->signals.load() < (int)o.arg(0)) sched_yield(); }
     }
     ts.drop_all();
     if (is_worker && ts.attached) { xev("pass"); detach(); xev("detach"); }
@@ -56,9 +64,11 @@ template <class GC> static void run_smr_program(const Program& P, int nslots, bo
 }
 template <class GC, class Mk> static void smr_variant(const Program& P, int nslots, bool odd, bool func_retire, Mk mk) {
   World w; w.odd = odd; W = &w; vs::g_user_sink = user_sink;
+  for (int i = 0; i < World::NPOOL; ++i) w.pool[i].store(nullptr); w.signals.store(0);
   { auto smr = mk(); for (int i = 0; i < NLINK; ++i) w.link[i].store(w.make());
     run_smr_program<GC>(P, nslots, func_retire);
     for (int i = 0; i < NLINK; ++i) { Obj* o = w.link[i].exchange(nullptr); if (o) { xev("retire", id_of(o)); GC::template retire<ObjDisposer>(o); } }
+    for (int i = 0; i < World::NPOOL; ++i) { Obj* o = w.pool[i].exchange(nullptr); if (o) { xev("retire", id_of(o)); GC::template retire<ObjDisposer>(o); } }
     xev("pass"); }
   xev("destroyed"); W = nullptr; vs::g_user_sink = nullptr; }
 typedef cds::gc::HP HP; typedef cds::gc::DHP DHP;
